@@ -214,21 +214,52 @@ func instrDominates(a, b ssa.Instruction) bool {
 }
 
 // edgeDominates reports whether taking successor `succ` (0 = true, 1 = false)
-// of the If ending block `ifb` is implied at block `target`: the successor
-// block is entered only through that edge and dominates target.
+// of the If ending block `ifb` is implied at block `target`: every CFG path
+// from the function entry to target traverses that edge. This is what
+// separates `if ok {…}` from `if ok || other {…}`: in the latter the body is
+// also entered through the second test.
 func edgeDominates(ifb *ssa.BasicBlock, succ int, target *ssa.BasicBlock) bool {
+	return edgeDominatesUnder(ifb, succ, target, nil)
+}
+
+// edgeDominatesUnder is edgeDominates on the CFG restricted to feasible edges.
+func edgeDominatesUnder(ifb *ssa.BasicBlock, succ int, target *ssa.BasicBlock, edgeOK func(*ssa.BasicBlock, int) bool) bool {
 	if succ >= len(ifb.Succs) {
 		return false
 	}
-	s := ifb.Succs[succ]
-	if len(s.Preds) != 1 {
-		return false
-	}
-	// (both edges going to the same block means the edge carries no information)
 	if len(ifb.Succs) == 2 && ifb.Succs[0] == ifb.Succs[1] {
+		return false // the edge carries no information
+	}
+	fn := ifb.Parent()
+	// target must be reachable at all, and unreachable once the edge is removed
+	reach := func(skip bool) bool {
+		seen := map[*ssa.BasicBlock]bool{fn.Blocks[0]: true}
+		queue := []*ssa.BasicBlock{fn.Blocks[0]}
+		for len(queue) > 0 {
+			b := queue[0]
+			queue = queue[1:]
+			if b == target {
+				return true
+			}
+			for i, s := range b.Succs {
+				if skip && b == ifb && i == succ {
+					continue
+				}
+				if edgeOK != nil && !edgeOK(b, i) {
+					continue
+				}
+				if !seen[s] {
+					seen[s] = true
+					queue = append(queue, s)
+				}
+			}
+		}
 		return false
 	}
-	return s == target || s.Dominates(target)
+	if target == fn.Blocks[0] {
+		return false
+	}
+	return reach(false) && !reach(true)
 }
 
 // blockIf returns the If terminating b, or nil.
@@ -249,7 +280,9 @@ type guardFact struct {
 	If   *ssa.If
 }
 
-func guardsOf(target *ssa.BasicBlock) []guardFact {
+func guardsOf(target *ssa.BasicBlock) []guardFact { return guardsOfUnder(target, nil) }
+
+func guardsOfUnder(target *ssa.BasicBlock, edgeOK func(*ssa.BasicBlock, int) bool) []guardFact {
 	var out []guardFact
 	fn := target.Parent()
 	for _, b := range fn.Blocks {
@@ -257,10 +290,10 @@ func guardsOf(target *ssa.BasicBlock) []guardFact {
 		if ifi == nil {
 			continue
 		}
-		if edgeDominates(b, 0, target) {
+		if edgeDominatesUnder(b, 0, target, edgeOK) {
 			out = append(out, guardFact{ifi.Cond, true, ifi})
 		}
-		if edgeDominates(b, 1, target) {
+		if edgeDominatesUnder(b, 1, target, edgeOK) {
 			out = append(out, guardFact{ifi.Cond, false, ifi})
 		}
 	}
@@ -466,6 +499,76 @@ func (p *Program) cellStores(alloc *ssa.Alloc) []*ssa.Store {
 	return out
 }
 
+// reachingStores: the stores to cell `alloc` that may supply the value read by
+// load `at`. Within the allocating function this is flow-sensitive (a store
+// reaches the load if some CFG path from it to the load passes no other store
+// to the cell). Stores made inside closures reach everywhere if the closure
+// can run before the load (called directly or passed as a callback); stores in
+// closures that are only deferred take effect at function exit and do not
+// reach loads of the function body. Loads inside closures see every store.
+func (p *Program) reachingStores(alloc *ssa.Alloc, at *ssa.UnOp) []*ssa.Store {
+	all := p.cellStores(alloc)
+	home := alloc.Parent()
+	if at.Parent() != home {
+		return all
+	}
+	var local, foreign []*ssa.Store
+	for _, st := range all {
+		if st.Parent() == home {
+			local = append(local, st)
+		} else {
+			foreign = append(foreign, st)
+		}
+	}
+	isLocal := map[ssa.Instruction]bool{}
+	for _, st := range local {
+		isLocal[st] = true
+	}
+	var out []*ssa.Store
+	for _, st := range local {
+		st := st
+		q := pathQuery{fn: home, start: st,
+			target:  func(x ssa.Instruction) bool { return x == ssa.Instruction(at) },
+			barrier: func(x ssa.Instruction) bool { return isLocal[x] && x != ssa.Instruction(st) }}
+		if w, _ := q.find(); w != nil {
+			out = append(out, st)
+		}
+	}
+	for _, st := range foreign {
+		// closure of the store: find the direct child closure of home that contains it
+		g := st.Parent()
+		for g.Parent() != nil && g.Parent() != home {
+			g = g.Parent()
+		}
+		if g.Parent() == home && closureOnlyDeferred(home, g) {
+			continue
+		}
+		out = append(out, st)
+	}
+	return out
+}
+
+// closureOnlyDeferred: every use of the closure in parent is as the callee of a defer.
+func closureOnlyDeferred(parent, anon *ssa.Function) bool {
+	found, only := false, true
+	for _, b := range parent.Blocks {
+		for _, in := range b.Instrs {
+			mc, ok := in.(*ssa.MakeClosure)
+			if !ok || mc.Fn != anon {
+				continue
+			}
+			found = true
+			for _, ref := range *mc.Referrers() {
+				if d, ok := ref.(*ssa.Defer); ok && d.Call.Value == ssa.Value(mc) {
+					continue
+				}
+				only = false
+			}
+		}
+	}
+	return found && only
+}
+
 // unwrapOpts controls which instructions origins() looks through.
 type originOpts struct {
 	throughSlice   bool // x[a:b] -> x
@@ -534,7 +637,7 @@ func (p *Program) origins(v ssa.Value, o originOpts) []ssa.Value {
 			if x.Op == token.MUL {
 				root := p.cellRoot(x.X)
 				if al, ok := root.(*ssa.Alloc); ok {
-					sts := p.cellStores(al)
+					sts := p.reachingStores(al, x)
 					if len(sts) == 0 {
 						roots = append(roots, al) // zero value
 						return
